@@ -38,6 +38,21 @@ Theorem C05_buffered_answers_are_full : forall sv v q m,
 Proof. exact buffered_msgs_only_full. Qed.
 Print Assumptions C05_buffered_answers_are_full.
 
+(* a partially buffered version is answered with sub-ranges of exactly the ranges held *)
+Theorem C05_buffered_within_held : forall sv v q m,
+  (forall rs re last a b, In ((rs, re), last) (match vget v (sv_seq sv) with Some r => r | None => [] end) ->
+     rs <= a -> b <= re ->
+     wf_input (map (fun r => mkChg (fst r) (sv_rowsize sv) (snd r))
+                   (filter (in_range a b) (match vget v (sv_buf sv) with Some b0 => b0 | None => [] end))) a b = true) ->
+  In m (buffered_msgs sv v q) ->
+  match m with
+  | MFull _ _ s e _ => exists rs re last,
+      In ((rs, re), last) (match vget v (sv_seq sv) with Some r => r | None => [] end) /\ rs <= s /\ e <= re
+  | MEmpty _ _ => False
+  end.
+Proof. exact buffered_range_within_held. Qed.
+Print Assumptions C05_buffered_within_held.
+
 Example C05_nonvacuous :
   let sv := mkSrv [(8, [(0, 1009)]); (9, [(0, 1001); (1, 1002); (2, 1003)])] [(3, 3); (5, 5); (7, 7)]
                   [(4, [(0, 4100); (1, 4101)])] [(4, [((0, 1), 3)])] [(3, 3); (5, 5); (7, 7)] (Some 9) 75 in
